@@ -13,7 +13,7 @@ rm -rf "$W/verif/sim/target" "$W/verif/sim-threads/target"
 grep -rl '/repo/' "$W/verif/sim" "$W/verif/sim-threads" --include=Cargo.toml | xargs sed -i "s|/repo/|$W/repo/|g"
 export VERIF_DIR="$W/verif" CARGO_NET_OFFLINE=true
 out="$W/diagonal.tsv"; : > "$out"
-build() { if [ "$1" = C20 ]; then (cd "$W/verif/sim-threads" && cargo build --release --offline >/dev/null 2>&1); else (cd "$W/verif/sim" && cargo build --release --offline >/dev/null 2>&1); fi; }
+build() { if [ "$1" = C20 ]; then (cd "$W/verif/sim-threads" && cargo build --release --offline >/dev/null 2>&1); else (cd "$W/verif/sim" && cargo build --release --offline >/dev/null 2>&1 && cargo build --profile shipped --offline >/dev/null 2>&1); fi; }
 i=0
 for d in "$HERE"/seeded/*/; do
   k=$(basename "$d"); p=${k%%-*}
